@@ -74,7 +74,10 @@ pub(crate) fn float_lit_ends_in_dot(
         FloatLiteralTrailingZero::Preserve => symbol.ends_with('.') && suffix.is_none(),
         FloatLiteralTrailingZero::IfNoPostfix | FloatLiteralTrailingZero::Always => false,
         FloatLiteralTrailingZero::Never => {
-            let float_parts = parse_float_symbol(symbol).unwrap();
+            // Not a decimal literal (`0b1f32`): it is left as it is written.
+            let Ok(float_parts) = parse_float_symbol(symbol) else {
+                return symbol.ends_with('.') && suffix.is_none();
+            };
             let has_postfix = float_parts.exponent.is_some() || suffix.is_some();
             let fractional_part_zero = float_parts.is_fractional_part_zero();
             !has_postfix && fractional_part_zero
@@ -1401,7 +1404,15 @@ fn rewrite_float_lit(
     let symbol = token_lit.symbol.as_str();
     let suffix = token_lit.suffix.as_ref().map(|s| s.as_str());
 
-    let float_parts = parse_float_symbol(symbol).unwrap();
+    // Not a decimal literal (`0b1f32`): leave it as it is written.
+    let Ok(float_parts) = parse_float_symbol(symbol) else {
+        return wrap_str(
+            context.snippet(span).to_owned(),
+            context.config.max_width(),
+            shape,
+        )
+        .max_width_error(shape.width, span);
+    };
     let FloatSymbolParts {
         integer_part,
         fractional_part,
